@@ -16,7 +16,8 @@ MANIFEST = dict(
          "weights differ by a power of two; TLC validates every recorded signature against the arg-min of measured race "
          "tables (register accessor hook), treating exact floating-point ties as the property says. Weights near both ends of "
          "the f64 range are probed separately."
-         " Realistic sizes are covered harness-side with the same Layer-A function: m up to 4096 with streams up to 10^5 (10^6 thorough), and sketches far larger than the stream (singletons and sets dominated by one heavy entry at m up to 30000, with the ProbMinHash3-vs-3a comparison).",
+         " Realistic sizes are covered harness-side with the same Layer-A function: m up to 4096 with streams up to 10^5 (10^6 thorough), and sketches far larger than the stream (singletons and sets dominated by one heavy entry at m up to 30000, with the ProbMinHash3-vs-3a comparison)."
+             " Runs behind the crate's identity hasher with byte-structured identifier pairs, runs in which an item is the constructor's initial object, a twin sketcher fed the same set in the opposite order at the end of every history, and the function-of-the-set rule of TraceJoin.tla.",
     design_ref="DESIGN.md section 4, C02",
     note="trusted: TLC, Json/IOUtils, rank abstraction, measured race tables via the guarded register accessor; the union law "
          "is a consequence of the validated arg-min semantics; exhaustive only at the stated small sizes",
